@@ -290,7 +290,23 @@ func (eng) Run(c core.CaseDesc, tier string) *core.CaseResult {
 }
 
 func runDeltas(res *core.CaseResult, cf cfg, r *rand.Rand) {
-	w, err := newWorld(res, cf, nil)
+	// the source has a history before the client connects: the handshake
+	// snapshot carries full ticks (0..5 per state), whatever the later
+	// snapshots are encoded as
+	w, err := newWorld(res, cf, func(src *am.Machine) {
+		for _, s := range src.StateNames() {
+			if s == am.StateException {
+				continue
+			}
+			for k := r.IntN(6); k > 0; k-- {
+				if src.Is1(s) {
+					src.Remove1(s, nil)
+				} else {
+					src.Add1(s, nil)
+				}
+			}
+		}
+	})
 	if err != nil {
 		res.Inconclusive = "pair: " + err.Error()
 		return
